@@ -94,7 +94,10 @@ type Upstream struct {
 	eventDispatcher *eventDispatcher
 
 	connState *connStatus
-	state     *streamState
+	// connGeneration is connState.Connects() of the wire connection the stream is attached to (wireConn).
+	// It is set when the stream is opened and by resume, i.e. never while run is running.
+	connGeneration uint64
+	state          *streamState
 
 	upstreamChunkResultChs map[uint32]chan *message.UpstreamChunkResult
 	receivedAck            *sync.Cond
@@ -325,8 +328,10 @@ func (u *Upstream) run(isResume bool) error {
 		u.sent.Clear(u.ctx, u.ID)
 	}
 	eg.Go(func() error {
+		// The run also ends when the connection has been re-established since the stream was attached to its wire
+		// connection: a redial can be over before this goroutine gets to see the status "reconnecting".
 		u.connState.cond.L.Lock()
-		for !u.connState.IsWithoutLock(connStatusReconnecting) {
+		for !u.connState.IsWithoutLock(connStatusReconnecting) && u.connState.connectsWithoutLock() == u.connGeneration {
 			select {
 			case <-ctx.Done():
 				u.connState.cond.L.Unlock()
@@ -677,7 +682,7 @@ func (u *Upstream) processResult(ctx context.Context, result *message.UpstreamCh
 	return nil
 }
 
-func (u *Upstream) resume(newConn *wire.ClientConn) error {
+func (u *Upstream) resume(newConn *wire.ClientConn, connGeneration uint64) error {
 	if u.isClosed() {
 		return fmt.Errorf("already closed upstream")
 	}
@@ -686,6 +691,7 @@ func (u *Upstream) resume(newConn *wire.ClientConn) error {
 	}
 	u.mu.Lock()
 	u.wireConn = newConn
+	u.connGeneration = connGeneration
 	u.mu.Unlock()
 
 	var resp *message.UpstreamResumeResponse
